@@ -796,7 +796,12 @@ func (i *IRCServer) generateCaptchaURL(s *Session, purpose string) string {
 		base64.StdEncoding.EncodeToString(mac.Sum(nil)),
 	}, ".")
 
-	u, _ := url.Parse(i.Config.CaptchaURL)
+	u, err := url.Parse(i.Config.CaptchaURL)
+	if err != nil {
+		// The configured URL is not parseable (only its presence is checked
+		// when the configuration is posted), so use it verbatim.
+		return i.Config.CaptchaURL + "#" + parts
+	}
 	if u.Path == "" {
 		u.Path = "/"
 	}
